@@ -50,8 +50,8 @@ VDepth == 3
 IMethods == IF Thorough THEN {"POST", "PUT", "DELETE", "PATCH", "PROPPATCH", "MKCOL", "X-UNKNOWN", "HEAD", "OPTIONS"}
             ELSE {"POST", "DELETE", "PROPPATCH", "X-UNKNOWN", "HEAD"}
 IStatus == IF Thorough THEN {200, 204, 301, 404, 500} ELSE {200, 301, 404}
-\* <<loc1, locso>>: none, the other same-origin resource, the cross-origin resource
-ILoc == {<<0, 0>>, <<2, 1>>, <<11, 0>>}
+\* <<loc1, locso>>: none, the other same-origin resource, a same-origin resource nothing is stored for, the cross-origin resource
+ILoc == {<<0, 0>>, <<2, 1>>, <<3, 1>>, <<11, 0>>}
 IAnsUnsafe == { [A0 EXCEPT !.st = s, !.ccp = 0, !.ma = None, !.etag = 0, !.loc1 = l[1], !.locso = l[2], !.cloc1 = c[1], !.clocso = c[2]]
                   : s \in IStatus, l \in ILoc, c \in (IF Thorough THEN ILoc ELSE {<<0, 0>>, <<2, 1>>}) }
 
